@@ -23,7 +23,7 @@ Ltac consts := unfold EPERM, EINTR, EAGAIN, EBUSY, EINVAL, ETIMEDOUT in *; cbn [
 
 Definition sig_local (w : world) (t : tid) : Prop :=
   match pc (tc w t) with
-  | SigSetUnlock | SigResetUnlock => m_owner (mtx (ps w) SM) = Some t
+  | SigSetBcast | SigSetUnlock | SigResetUnlock => m_owner (mtx (ps w) SM) = Some t
   | SigWaitUnlock b => m_owner (mtx (ps w) SM) = Some t /\ (b = true -> sigf w = true)
   | SigWaitCond _ => st (ps w) t = TRun -> m_owner (mtx (ps w) SM) = Some t /\ sigf w = false
   | _ => True
@@ -42,6 +42,7 @@ Lemma sig_local_frame w w' u :
 Proof.
   unfold sig_local. intros Htc Hm Hf Hst H. rewrite Htc.
   destruct (pc (tc w u)) eqn:Hpc; auto.
+  - rewrite (Hm u); auto.
   - rewrite (Hm u); auto.
   - rewrite (Hm u); auto.
   - intros Hs. destruct (Hst Hs) as [Hs'|]; [|discriminate]. destruct (H Hs') as [Ho Hsf]. rewrite (Hm u), Hf; auto.
@@ -125,7 +126,8 @@ Proof.
             unfold SM in *; wsimpl; upd_simpl; cbn [m_owner]; auto;
             try (unfold owned_by in *; destruct (m_owner (mtx (ps w) 0)) as [o|]; [|discriminate];
                  match goal with H : (o =? t)%nat = true |- _ => apply Nat.eqb_eq in H; subst o end; auto);
-            try (split; [auto|intros; congruence]); try (intros; split; auto; congruence); try (split; auto; discriminate). }
+            try (split; [auto|intros; congruence]); try (intros; split; auto; congruence); try (split; auto; discriminate);
+            pose proof (HL t) as HLt; unfold sig_local in HLt; rewrite Hpc' in HLt; exact HLt. }
       all: destruct (pc (tc w t)) eqn:Hpc'; try congruence; use_I1 H1 t Hpc'; pose proof (HL t) as HLt; unfold sig_local in HLt; rewrite Hpc' in HLt;
         cbn [after_return]; wsimpl; consts; dif; wsimpl; try destruct dl; cbn [pc_ok] in *; ex_cur; wsimpl; sig_fin Hok Hst.
       all: try congruence.
@@ -163,9 +165,11 @@ Proof.
 Qed.
 
 (* ---- no waiter stays blocked while the signal is set: a blocked waiter and a set flag imply that
-        some thread is between the flag write and the broadcast of Signal::set ---- *)
+        some thread is between the flag write and the broadcast of Signal::set, i.e. AT the broadcast
+        (set = lock; flag; broadcast; unlock: nobody can block on the condition between the broadcast and
+        the unlock, because blocking needs the mutex the setter still holds) ---- *)
 Definition pending_bcast (w : world) : Prop :=
-  exists v, pc (tc w v) = SigSetUnlock \/ pc (tc w v) = SigSetBcast.
+  exists v, pc (tc w v) = SigSetBcast.
 Definition SigLive (w : world) : Prop :=
   sigf w = true -> forall u, blocked_on SC (st (ps w) u) = true -> pending_bcast w.
 
@@ -173,11 +177,11 @@ Lemma blocked_evolves c a b : st_evolves a b -> blocked_on c b = true -> blocked
 Proof. intros [->|[(c' & m & dl & -> & ->)|[-> ->]]]; cbn; auto; discriminate. Qed.
 
 Lemma pending_bcast_frame w w' t : (forall v, v <> t -> tc w' v = tc w v) ->
-  (pc (tc w t) <> SigSetUnlock /\ pc (tc w t) <> SigSetBcast \/ pc (tc w' t) = SigSetUnlock \/ pc (tc w' t) = SigSetBcast) ->
+  (pc (tc w t) <> SigSetBcast \/ pc (tc w' t) = SigSetBcast) ->
   pending_bcast w -> pending_bcast w'.
 Proof.
   intros Hf Ht (v & Hv). destruct (Nat.eq_dec v t) as [->|Hn].
-  - destruct Ht as [[Ha Hb]|Ht]; [tauto|]. exists t; auto.
+  - destruct Ht as [Ha|Ht]; [tauto|]. exists t; auto.
   - exists v. rewrite Hf; auto.
 Qed.
 
@@ -191,16 +195,16 @@ Proof.
     destruct (step_run_case w t) as [|Hr Hpc Hs|op rest Hr Hpc Hs|p' Hr Hpc Hp|p' r Hr Hpc Hp].
     + intros Hf u Hu. apply Hcm. eauto.
     + wsimpl. intros Hf u Hu. apply Hcm. destruct (Nat.eq_dec u t) as [->|]; upd_simpl; [discriminate|].
-      eapply pending_bcast_frame with (t := t) (w := w); [reflexivity|left; rewrite Hpc; split; discriminate|eapply HS; eauto].
+      eapply pending_bcast_frame with (t := t) (w := w); [reflexivity|left; rewrite Hpc; discriminate|eapply HS; eauto].
     + rewrite sigf_begin_op, ps_begin_op. intros Hf u Hu. apply Hcm.
-      eapply pending_bcast_frame with (t := t) (w := w); [intros; now apply tc_begin_op_other|left; rewrite Hpc; split; discriminate|eapply HS; eauto].
+      eapply pending_bcast_frame with (t := t) (w := w); [intros; now apply tc_begin_op_other|left; rewrite Hpc; discriminate|eapply HS; eauto].
     + wsimpl. intros Hf u Hu. apply Hcm. destruct (Nat.eq_dec u t) as [->|Hn].
       * exfalso. pose proof (HL t) as HLt. unfold sig_local in HLt.
         apply prim_step_progress in Hp as (c' & m & dl & Hc & Hst' & [[_ ->]|(_ & _ & ->)]); wsimpl; upd_simpl; [discriminate|].
         cbn in Hu. apply Nat.eqb_eq in Hu. subst c'.
         destruct (pc (tc w t)); try discriminate Hc. destruct (HLt Hst') as [_ HF]. congruence.
       * eapply pending_bcast_frame with (t := t) (w := w); [reflexivity| |eapply HS; eauto].
-        -- left. apply prim_step_progress in Hp as (c' & m & dl & Hc & _). destruct (pc (tc w t)); try discriminate Hc; split; discriminate.
+        -- left. apply prim_step_progress in Hp as (c' & m & dl & Hc & _). destruct (pc (tc w t)); try discriminate Hc; discriminate.
         -- eapply blocked_evolves; [|exact Hu]. eapply prim_step_st_other; eauto; [rewrite Hp; reflexivity|now apply runnable_not_ns].
     + rewrite ps_after_return. wsimpl. intros Hf u Hu. apply Hcm.
       assert (Hself : st p' t = TRun) by (eapply prim_step_st_self_return; eauto; now apply I2_self_ok).
@@ -212,23 +216,23 @@ Proof.
       destruct (pc (tc w t)) eqn:Hpc'; try congruence;
         try (exists t; cbn [after_return]; wsimpl; upd_simpl; wsimpl; auto; fail);
         try (prim_inv Hp; subst p'; wsimpl; rewrite Hb in Hu; destruct (st (ps w) u); discriminate);
-        (eapply pending_bcast_frame with (t := t) (w := w); [exact Hframe|left; rewrite Hpc'; split; discriminate|]);
+        (eapply pending_bcast_frame with (t := t) (w := w); [exact Hframe|left; rewrite Hpc'; discriminate|]);
         revert Hf; cbn [after_return]; wsimpl; dif; wsimpl; intros Hf; try discriminate Hf; eauto.
   - destruct (st (ps w) t) eqn:Hst'; try exact HS.
     + destruct (is_sem_wait (pc (tc w t))) eqn:Hsw; [|exact HS]. rewrite ps_after_return. intros Hf u Hu.
       assert (Hf' : sigf w = true) by (revert Hf; destruct (pc (tc w t)); try discriminate; cbn [after_return]; wsimpl; consts; auto).
       eapply pending_bcast_frame with (t := t) (w := w); [intros; now apply tc_after_return_other| |apply (HS Hf' u Hu)].
-      left. destruct (pc (tc w t)); try discriminate; split; discriminate.
+      left. destruct (pc (tc w t)); try discriminate; discriminate.
     + wsimpl. intros Hf u Hu. eapply pending_bcast_frame with (t := t) (w := w); [reflexivity|left|apply (HS Hf u)].
-      * pose proof (H2 t) as H2t. rewrite Hst' in H2t. cbn in H2t. destruct (pc (tc w t)); try discriminate; split; discriminate.
+      * pose proof (H2 t) as H2t. rewrite Hst' in H2t. cbn in H2t. destruct (pc (tc w t)); try discriminate; discriminate.
       * revert Hu. unfold prim_spurious. rewrite Hst'. wsimpl. destruct (Nat.eq_dec u t) as [->|]; upd_simpl; cbn; intros; try discriminate; auto.
   - destruct (st (ps w) t) eqn:Hst'; try exact HS.
     + destruct (pc (tc w t)) eqn:Hpc'; try exact HS. destruct (_ && _); [|exact HS]. rewrite ps_after_return. intros Hf u Hu.
       assert (Hf' : sigf w = true) by (revert Hf; cbn [after_return]; wsimpl; consts; auto).
       eapply pending_bcast_frame with (t := t) (w := w); [intros; now apply tc_after_return_other| |apply (HS Hf' u Hu)].
-      left. rewrite Hpc'. split; discriminate.
+      left. rewrite Hpc'. discriminate.
     + wsimpl. intros Hf u Hu. eapply pending_bcast_frame with (t := t) (w := w); [reflexivity|left|apply (HS Hf u)].
-      * pose proof (H2 t) as H2t. rewrite Hst' in H2t. cbn in H2t. destruct (pc (tc w t)); try discriminate; split; discriminate.
+      * pose proof (H2 t) as H2t. rewrite Hst' in H2t. cbn in H2t. destruct (pc (tc w t)); try discriminate; discriminate.
       * revert Hu. unfold prim_timeout. rewrite Hst'. destruct dl as [d|]; auto. destruct (dl_expired d _); auto.
         wsimpl. destruct (Nat.eq_dec u t) as [->|]; upd_simpl; cbn; intros; try discriminate; auto.
   - wsimpl. intros Hf u Hu. destruct (HS Hf u) as (v & Hv); [|exists v; exact Hv].
